@@ -22,6 +22,17 @@ LEVEL = "model_checking"
 CFG = "Trace_Payments_C18.cfg"
 
 
+def applied(ev, x):
+    """The badge the chain applies to relay x: the first badge of the transaction for (signer, block)."""
+    if x["tm"] != "none":
+        return None
+    for y in ev["rs"]:
+        b = y["b"]
+        if b["u"] != "-" and (b["u"], b["e"], b["o"]) == (x["sg"], x["e"], x["o"]):
+            return b
+    return None
+
+
 def classify(violated, ev, prev):
     name = (violated or "").split(":")[-1]
     huge = any(x["cuv"] >= 1000000 for x in ev.get("rs", []) if x.get("acc"))
@@ -33,16 +44,14 @@ def classify(violated, ev, prev):
     if ev.get("ev") == "pay":
         st = ev["st"]
         for x in ev["rs"]:
-            b = x["b"]
-            if not (x["acc"] and b["u"] != "-" and b["u"] == x["sg"]):
+            b = applied(ev, x) if x["acc"] else None
+            if not b:
                 continue
             if not b["lc"]:
                 return "badge-honoured:wrong-chain"
-            if (b["e"], b["o"]) != (x["e"], x["o"]):
-                return "badge-honoured:wrong-epoch"
             if b["e"] + 3 < st["cur"] or (b["e"] + 3 == st["cur"] and b["o"] <= st["off"]):
                 return "badge-honoured:after-expiry"
-            return "badge-usage-not-recorded" + suffix
+        return "badge-usage-not-recorded" + suffix
     return name
 
 
